@@ -32,6 +32,8 @@ import (
 	"fmt"
 	"io"
 	"net/http"
+	"net/url"
+	"os"
 	goruntime "runtime"
 	"strconv"
 	"strings"
@@ -217,6 +219,7 @@ const (
 	modeZero        = "zero-header"       // ContentLength 0, header "Content-Length: 0"
 	modePositive    = "positive-header"   // ContentLength n > 0 and the header
 	modePositiveNH  = "positive-noheader" // ContentLength n > 0 without header (as http.NewRequest builds it)
+	modeJSONRequest = "via-JSONRequest"   // request built by runtime.JSONRequest around the stream (nothing declared)
 
 	// requests as net/http delivers them: the raw request text arrives over the scripted stream (which then
 	// plays the connection, chunked at the explorer's will) and is parsed by http.ReadRequest; the body the
@@ -227,7 +230,7 @@ const (
 	modeWireNone     = "wire:no-length"      // neither header (payload must be empty)
 )
 
-var allModes = []string{modeAbsent0, modeAbsentMinus, modeZero, modePositive, modePositiveNH, modeWireCL, modeWireChunked, modeWireChunked2, modeWireNone}
+var allModes = []string{modeJSONRequest, modeAbsent0, modeAbsentMinus, modeZero, modePositive, modePositiveNH, modeWireCL, modeWireChunked, modeWireChunked2, modeWireNone}
 
 func isWire(mode string) bool { return strings.HasPrefix(mode, "wire:") }
 
@@ -275,12 +278,25 @@ const (
 	opClose
 	opRead4095 // extended alphabet (thorough only): just below / well above the 4096-byte buffer of bufio
 	opRead8192
+	// the other ways a user consumes request.Body (consume.go); judged by the same model
+	opCopy        // io.Copy(plain writer, body): WriterTo of the body when it has one, else Read
+	opCopyRF      // io.Copy(*bytes.Buffer, body): WriterTo of the body, else ReaderFrom of the destination
+	opReadAll     // io.ReadAll(body)
+	opCopyN2      // io.CopyN(w, body, 2): a prefix, further operations follow
+	opBufioBytes  // bufio.NewReader(body), ReadByte until it fails
+	opBufioWrTo   // bufio.NewReader(body).WriteTo(w)
+	opOptional    // every optional interface the installed body turns out to implement (type assertion at run time)
+	opPredicates  // runtime.IsSafe / AllowsBody / CanHaveBody on the request: must not touch the body
+	opBindTyped   // the library's own callers of the probe: Context.BindValidRequest with a body-reading RequestBinder
+	opBindUntyped // ... and Context.BindAndValidate (untyped binder + consumer)
 	nOps
 	nBaseOps = opClose + 1
 )
 
-var opNames = [nOps]string{"HasBody", "Read(0)", "Read(1)", "Read(2)", "Read(4096)", "Close", "Read(4095)", "Read(8192)"}
-var opReadSize = [nOps]int{-1, 0, 1, 2, 4096, -1, 4095, 8192}
+var opNames = [nOps]string{"HasBody", "Read(0)", "Read(1)", "Read(2)", "Read(4096)", "Close", "Read(4095)", "Read(8192)",
+	"io.Copy", "io.Copy(bytes.Buffer)", "io.ReadAll", "io.CopyN(2)", "bufio.ReadByte*", "bufio.WriteTo", "OptionalInterfaces", "MethodPredicates",
+	"BindValidRequest", "BindAndValidate"}
+var opReadSize = [nOps]int{-1, 0, 1, 2, 4096, -1, 4095, 8192, -1, -1, -1, -1, -1, -1, -1, -1, -1, -1}
 
 // Case is the replayable form of one execution. The top-level body/term/mode describe request A;
 // More lists requests B, C ... of a several-request history, whose operations are spelled "B.HasBody".
@@ -310,7 +326,7 @@ const maxReqs = 3
 var reqNames = [maxReqs]string{"A", "B", "C"}
 
 // an operation of a history: request index * opStride + operation
-const opStride = 16
+const opStride = 32
 
 type config struct {
 	id      int
@@ -349,8 +365,11 @@ func newConfigFirst(id, bodyLen int, term error, mode string, which, first int) 
 }
 
 func termName(e error) string {
-	if e == io.EOF {
+	switch e {
+	case io.EOF:
 		return "EOF"
+	case io.ErrUnexpectedEOF:
+		return "UEOF"
 	}
 	return "ERR"
 }
@@ -420,6 +439,8 @@ func parseReq(bodyLen int, termS, mode string, which, first int) (*config, error
 		term = io.EOF
 	case "ERR":
 		term = errInjected
+	case "UEOF":
+		term = io.ErrUnexpectedEOF // what net/http reports for a chunked body that was cut
 	default:
 		return nil, fmt.Errorf("unknown terminal %q", termS)
 	}
@@ -524,6 +545,20 @@ const (
 	oDrainedComplete
 	oWireUnreadable
 	oUnderlyingCloseFails
+	oBulkComplete
+	oBulkPrefix
+	oBulkAfterClose
+	oBulkPastTerminal
+	oIfaceNone
+	oIfaceWriterTo
+	oIfaceByteReader
+	oIfaceSeeker
+	oIfaceReaderFrom
+	oBinderInvoked
+	oBinderNotInvoked
+	oConsumerInvoked
+	oConsumerNotInvoked
+	oPredicates
 	nOutcomes
 )
 
@@ -537,6 +572,10 @@ var outcomeNames = [nOutcomes]string{
 	"panic", "probe:peeking-wrapper-installed", "probe:typed-nil-body-installed", "epilogue:drained-to-terminal",
 	"harness:wire-request-unreadable",
 	"env:underlying-close-returns-error",
+	"consume:to-the-terminal", "consume:prefix-only", "consume:after-close-yields-nothing", "consume:past-terminal",
+	"body-implements:no-optional-interface", "body-implements:io.WriterTo", "body-implements:io.ByteReader", "body-implements:io.Seeker", "body-implements:io.ReaderFrom",
+	"library-caller:binder-invoked", "library-caller:binder-not-invoked", "library-caller:consumer-invoked", "library-caller:consumer-not-invoked",
+	"method-predicates:body-untouched",
 }
 
 type stats struct {
@@ -589,6 +628,9 @@ func exec(cfgs []*config, ops []uint8, ch *choice.Chooser, zeroBudget int, st *s
 	st.execs++
 	defer func() {
 		if e := recover(); e != nil {
+			if os.Getenv("C17_NORECOVER") != "" {
+				panic(e)
+			}
 			msg := fmt.Sprint(e)
 			if strings.HasPrefix(msg, "choice:") {
 				// replay divergence: the same (configuration, history, choice prefix) made the streams see a different
@@ -692,7 +734,7 @@ type sess struct {
 
 func newSess(x *xctx, idx int, cfg *config) *sess {
 	q := &sess{x: x, cfg: cfg, name: reqNames[idx]}
-	q.req = &http.Request{Method: http.MethodPost, Header: http.Header{}}
+	q.req = &http.Request{Method: http.MethodPost, Header: http.Header{"Content-Type": {"application/octet-stream"}}, URL: &url.URL{Path: "/up"}}
 	site := q.name + ".stream"
 	if isWire(cfg.mode) {
 		q.env = &stream{site: site, data: cfg.wire, term: io.EOF, c: x.ch, zeroBudget: x.zb}
@@ -719,6 +761,19 @@ func newSess(x *xctx, idx int, cfg *config) *sess {
 		}
 	case modeWireChunked, modeWireChunked2, modeWireNone:
 	case modeAbsent0:
+	case modeJSONRequest:
+		var body io.Reader
+		if q.s != nil {
+			body = q.s
+		}
+		rq, err := runtime.JSONRequest(http.MethodPost, "/up", body)
+		if err != nil {
+			panic("harness: JSONRequest: " + err.Error())
+		}
+		q.req = rq
+		if q.s != nil {
+			q.orig = rq.Body
+		}
 	case modeAbsentMinus:
 		q.req.ContentLength = -1
 	case modeZero:
@@ -1078,6 +1133,10 @@ func (q *sess) applyInner(op uint8, label string) (string, string) {
 				logf("  %-28s -> err=%v underlying closes=%s", label, err, c)
 			}
 		}
+	case op >= opCopy:
+		if cl, w := q.consume(op, label); cl != "" {
+			return cl, w
+		}
 	default:
 		n := opReadSize[op]
 		if q.kind() == kindNil {
@@ -1237,6 +1296,9 @@ type sweep struct {
 	extended   bool // alphabet of 8 operations, and only histories that use Read(4095) or Read(8192) (the others are covered by the base sweeps)
 	bound      int  // deviations of the streams from their default answers; -1 = unbounded
 	zeroBudget int
+	terms      []error  // terminal conditions (nil: EOF and the injected error)
+	alphabet   []uint8  // operation alphabet (nil: the six base operations)
+	need       []uint8  // when set: only histories that contain one of these operations (the others are covered elsewhere)
 	ctxs       []string // context / cancellation axis (nil: background context)
 	blocking   bool     // the first probe's first underlying Read parks; every history starts with that probe
 	waitMs     int
@@ -1280,9 +1342,25 @@ func allSeqs(sw sweep) [][]uint8 {
 		}
 		return out
 	}
+	if sw.alphabet != nil {
+		for _, s := range enum.Seqs(len(sw.alphabet), sw.minLen, sw.maxLen) {
+			q := make([]uint8, len(s))
+			has := len(sw.need) == 0
+			for i, v := range s {
+				q[i] = sw.alphabet[v]
+				for _, nd := range sw.need {
+					has = has || nd == q[i]
+				}
+			}
+			if has {
+				out = append(out, q)
+			}
+		}
+		return out
+	}
 	alpha := nBaseOps
 	if sw.extended {
-		alpha = nOps
+		alpha = opRead8192 + 1
 	}
 	for _, s := range enum.Seqs(alpha, sw.minLen, sw.maxLen) {
 		q := make([]uint8, len(s))
